@@ -509,9 +509,21 @@ func main() {
 				{"Bin- Cont-", []fr{{2, false}, {0, false}}, true},
 				{"Bin- Cont", []fr{{2, false}, {0, true}}, false},
 			}
+			// long open messages: the state is "a message is open" after any number of non-final
+			// fragments, also around the widths a counter might have
+			for _, k := range []int{255, 256, 257, 65535, 65536, 65537} {
+				fs := []fr{{2, false}}
+				for i := 0; i < k; i++ {
+					fs = append(fs, fr{0, false})
+				}
+				pres = append(pres, pre{fmt.Sprintf("Bin- then %d x Cont-", k), fs, true})
+			}
 			for _, server := range []bool{true, false} {
 				for _, p := range pres {
 					for _, mode := range []string{"frame-by-frame", "discarding", "frame-by-frame, the continuation handler objecting to every continuation"} {
+						if len(p.frames) > 10 && mode != "frame-by-frame" {
+							continue
+						}
 						if mode == "discarding" && !p.open {
 							continue
 						}
@@ -519,7 +531,7 @@ func main() {
 							continue
 						}
 						for hiccup := -1; hiccup <= len(p.frames); hiccup++ {
-							if hiccup == 0 || (mode == "discarding" && hiccup != len(p.frames)) {
+							if hiccup == 0 || (mode == "discarding" && hiccup != len(p.frames)) || (len(p.frames) > 10 && hiccup != -1) {
 								continue
 							}
 							for op := byte(0); op < 16; op++ {
